@@ -100,7 +100,12 @@ def _near_duplicate(r, rule):
         return None
     i = r.choice(idx)
     old = path[1][i][1]
-    new = r.choice([x for x in (0, 1, 2) if x != old])
+    if r.random() < 0.4:
+        # equal as a number, different as a part: 1 / 1.0 / True (an int part means
+        # "key or index", a float part "key only")
+        new = r.choice([float(old)] + ([bool(old)] if old in (0, 1) else []))
+    else:
+        new = r.choice([x for x in (0, 1, 2) if x != old])
     parts = path[1][:i] + (("prim", new),) + path[1][i + 1 :]
     return ("rule", ("path", parts) + tuple(path[2:]), rule[2], None, rule[4])
 
